@@ -91,6 +91,9 @@ func (c *Chooser) Seen(key string) bool {
 	return false
 }
 
+// Prefix returns the choice prefix this execution replays (then defaults).
+func (c *Chooser) Prefix() []int { return append([]int(nil), c.prefix...) }
+
 // Trace returns the labels of the choices taken so far.
 func (c *Chooser) Trace() []string { return append([]string(nil), c.labels...) }
 
